@@ -1,11 +1,14 @@
+pub mod attrs;
 pub mod capi;
 pub mod echo;
 pub mod edit;
 pub mod enc;
 pub mod esc;
+pub mod h5;
 pub mod hash;
 pub mod nsprobe;
 pub mod pass;
+pub mod patho;
 pub mod proto;
 pub mod lex;
 pub mod mem;
@@ -20,14 +23,17 @@ pub type LaneFn = fn(&str) -> String;
 
 pub fn find(name: &str) -> Option<LaneFn> {
     Some(match name {
+        "attrs" => attrs::run,
         "capi" => capi::run,
         "echo" => echo::run,
         "edit" => edit::run,
         "enc" => enc::run,
         "esc" => esc::run,
+        "h5" => h5::run,
         "hash" => hash::run,
         "nsprobe" => nsprobe::run,
         "pass" => pass::run_lane,
+        "patho" => patho::run,
         "proto" => proto::run,
         "lex" => lex::run,
         "fault" => lex::run_fault,
